@@ -915,8 +915,8 @@ theorem inv_init_core (g : Grid) (pid : Nat → Int) (props : List (String × (N
       exact mem_uniqueSorted.2 (List.mem_map_of_mem (List.mem_range.2 hp))
     · exact h
 
-theorem inv_init_none' (g : Grid) (pid : Nat → Int) (props : List (String × (Nat → Int))) (mask : Mask)
-    (hlow : ∀ p, p < g.size → -1 ≤ pid p) : Inv (init g pid none props mask) := by
+theorem inv_initOld_none' (g : Grid) (pid : Nat → Int) (props : List (String × (Nat → Int))) (mask : Mask)
+    (hlow : ∀ p, p < g.size → -1 ≤ pid p) : Inv (initOld g pid none props mask) := by
   have := inv_init_core g pid props mask hlow
     (fun uniq => PhaseList.sortById (PhaseList.ofPairs (uniq.map (·, Phase.dflt)))) (by
       intro uniq hu
@@ -929,11 +929,11 @@ theorem inv_init_none' (g : Grid) (pid : Nat → Int) (props : List (String × (
       intro e he
       obtain ⟨i, _, rfl⟩ := List.mem_map.1 he
       simp [Phase.dflt])
-  simpa only [init, PhaseList.ofKeywords_ids_only] using this
+  simpa only [initOld, PhaseList.ofKeywords_ids_only] using this
 
-theorem inv_init_some' (g : Grid) (pid : Nat → Int) (pl : PhaseList) (props : List (String × (Nat → Int)))
+theorem inv_initOld_some' (g : Grid) (pid : Nat → Int) (pl : PhaseList) (props : List (String × (Nat → Int)))
     (mask : Mask) (hlow : ∀ p, p < g.size → -1 ≤ pid p) (hnd : (PhaseList.ids pl).Nodup)
-    (hnames : ∀ e ∈ pl, e.2.name ≠ "not_indexed") : Inv (init g pid (some pl) props mask) := by
+    (hnames : ∀ e ∈ pl, e.2.name ≠ "not_indexed") : Inv (initOld g pid (some pl) props mask) := by
   have := inv_init_core g pid props mask hlow (fun uniq => reconcile uniq pl) (by
       intro uniq hu
       obtain ⟨h1, h2⟩ := reconcile_spec uniq pl hu hnd
@@ -942,7 +942,37 @@ theorem inv_init_some' (g : Grid) (pid : Nat → Int) (pl : PhaseList) (props : 
       rcases h2 e he with h | ⟨f, hf, hfe⟩
       · rw [h]; simp [Phase.dflt]
       · rw [← hfe]; exact hnames f hf)
-  simpa only [init] using this
+  simpa only [initOld] using this
+
+theorem dropNotIndexed_eq_filter (pl : PhaseList) :
+    dropNotIndexed pl = pl.filter fun e => !(e.1 == -1) := by
+  unfold dropNotIndexed PhaseList.dictPop
+  by_cases hany : pl.any (fun e => e.1 == -1) = true
+  · simp [hany]
+  · simp only [hany, Bool.false_eq_true, if_false]
+    symm
+    rw [List.filter_eq_self]
+    intro e he
+    have : ¬ (e.1 == -1) = true := fun hh => hany (List.any_eq_true.2 ⟨e, he, hh⟩)
+    simpa using this
+
+/-- `CrystalMap.__init__` (the code as it is now) establishes the invariant without a phase list … -/
+theorem inv_init_none' (g : Grid) (pid : Nat → Int) (props : List (String × (Nat → Int))) (mask : Mask)
+    (hlow : ∀ p, p < g.size → -1 ≤ pid p) : Inv (init g pid none props mask) :=
+  inv_initOld_none' g pid props mask hlow
+
+/-- … and with every caller list with pairwise distinct ids in which only id -1 may be called "not_indexed" -/
+theorem inv_init_some' (g : Grid) (pid : Nat → Int) (pl : PhaseList) (props : List (String × (Nat → Int)))
+    (mask : Mask) (hlow : ∀ p, p < g.size → -1 ≤ pid p) (hnd : (PhaseList.ids pl).Nodup)
+    (hwf : ∀ e ∈ pl, e.2.name = "not_indexed" → e.1 = -1) : Inv (init g pid (some pl) props mask) := by
+  unfold init
+  simp only [Option.map_some, dropNotIndexed_eq_filter]
+  apply inv_initOld_some' g pid _ props mask hlow
+  · exact hnd.sublist ((List.filter_sublist).map _)
+  · intro e he hname
+    have := List.mem_filter.1 he
+    have hid := hwf e this.1 hname
+    simp [hid] at this
 
 end Orix.XMap
 
@@ -1209,9 +1239,9 @@ theorem spec_ne_nil {s : Sys} (h : Inv s) {m : Mask} (hne : ids s.n m ≠ []) : 
 
 /-- `phases_in_data` with the proposed repair returns exactly the entries of the phase list whose id occurs
 in the data -/
-theorem phasesInDataFixed_eq {s : Sys} (h : Inv s) {m : Mask} (hne : ids s.n m ≠ []) :
-    phasesInDataFixed s m = .ok (phasesInDataSpec s m) := by
-  unfold phasesInDataFixed
+theorem phasesInDataGet_eq {s : Sys} (h : Inv s) {m : Mask} (hne : ids s.n m ≠ []) :
+    phasesInDataGet s m = .ok (phasesInDataSpec s m) := by
+  unfold phasesInDataGet
   simp only [common_eq_present h m]
   rw [PhaseList.getItem_idList_eq h.pl.sorted]
   · rw [spec_filter_eq]
@@ -1233,8 +1263,8 @@ theorem ids_spec {s : Sys} (h : Inv s) (m : Mask) :
     obtain ⟨e, he, hep⟩ := List.mem_map.1 (h.covers p (mem_ids.1 hp).1)
     exact ⟨e, ⟨he, ⟨p, hp, hep.symm⟩⟩, hep⟩
 
-theorem phasesInData_unfold (s : Sys) (m : Mask) :
-    phasesInData s m = match phasesInDataFixed s m with
+theorem phasesInDataOld_unfold (s : Sys) (m : Mask) :
+    phasesInDataOld s m = match phasesInDataGet s m with
       | .error e => .error e
       | .ok [(_, p)] =>
         (match PhaseList.idFromName s.phases p.name with
@@ -1242,11 +1272,11 @@ theorem phasesInData_unfold (s : Sys) (m : Mask) :
          | none => .error .keyError)
       | .ok d => .ok d := rfl
 
-/-- the code as it is agrees with the repaired version whenever names identify phases -/
-theorem phasesInData_eq_of_names {s : Sys} (h : Inv s) {m : Mask} (hne : ids s.n m ≠ [])
+/-- the code before `fix:` bb01d48 agrees with the specification only when names identify phases -/
+theorem phasesInDataOld_eq_of_names {s : Sys} (h : Inv s) {m : Mask} (hne : ids s.n m ≠ [])
     (hnames : ∀ e ∈ s.phases, ∀ f ∈ s.phases, e.2.name = f.2.name → e = f) :
-    phasesInData s m = .ok (phasesInDataSpec s m) := by
-  rw [phasesInData_unfold, phasesInDataFixed_eq h hne]
+    phasesInDataOld s m = .ok (phasesInDataSpec s m) := by
+  rw [phasesInDataOld_unfold, phasesInDataGet_eq h hne]
   match hspec : phasesInDataSpec s m with
   | [] => exact absurd hspec (spec_ne_nil h hne)
   | [(i, p)] =>
@@ -1268,6 +1298,26 @@ theorem phasesInData_eq_of_names {s : Sys} (h : Inv s) {m : Mask} (hne : ids s.n
     simp [this, PhaseList.ofSingle]
   | _ :: _ :: _ => rfl
 
+theorem phasesInData_unfold (s : Sys) (m : Mask) :
+    phasesInData s m = match phasesInDataGet s m with
+      | .error e => .error e
+      | .ok [(_, p)] =>
+        (match ((uniqueSorted ((ids s.n m).map s.phaseId)).filter
+            fun i => (PhaseList.ids s.phases).contains i).head? with
+         | some i => .ok (PhaseList.ofSingle p (some i))
+         | none => .error .keyError)
+      | .ok d => .ok d := rfl
+
+/-- **`phases_in_data` is exact** (the code as it is now): for a non-empty selection it returns exactly the
+entries of the phase list whose id occurs in the selection -/
+theorem phasesInData_eq {s : Sys} (h : Inv s) {m : Mask} (hne : ids s.n m ≠ []) :
+    phasesInData s m = .ok (phasesInDataSpec s m) := by
+  rw [phasesInData_unfold, phasesInDataGet_eq h hne, common_eq_present h m, ← ids_spec h m]
+  match hspec : phasesInDataSpec s m with
+  | [] => exact absurd hspec (spec_ne_nil h hne)
+  | [(i, p)] => simp [PhaseList.ids, PhaseList.ofSingle]
+  | _ :: _ :: _ => rfl
+
 /-- **orientations**: when `orientations` is defined, all points of the selection have one phase id and the
 symmetry returned is the point group of the phase stored under that id -/
 theorem orientationsSym_spec {s : Sys} (h : Inv s) {m : Mask} {sy : Option String}
@@ -1277,29 +1327,26 @@ theorem orientationsSym_spec {s : Sys} (h : Inv s) {m : Mask} {sy : Option Strin
     intro hnil
     unfold orientationsSym at ho
     rw [phasesInData_unfold] at ho
-    unfold phasesInDataFixed at ho
+    unfold phasesInDataGet at ho
     simp [hnil, uniqueSorted, PhaseList.getItem] at ho
   unfold orientationsSym at ho
-  rw [phasesInData_unfold, phasesInDataFixed_eq h hne] at ho
+  rw [phasesInData_eq h hne] at ho
   match hspec : phasesInDataSpec s m with
   | [] => exact absurd hspec (spec_ne_nil h hne)
   | [(i, p)] =>
     rw [hspec] at ho
-    simp only at ho
+    simp only [Except.ok.injEq] at ho
     have hmem : (i, p) ∈ s.phases := by
       have : (i, p) ∈ phasesInDataSpec s m := by rw [hspec]; simp
       exact (List.mem_filter.1 this).1
-    refine ⟨i, p, hmem, ?_, ?_⟩
-    · cases hid : PhaseList.idFromName s.phases p.name with
-      | none => simp [hid] at ho
-      | some j => simp [hid, PhaseList.ofSingle] at ho; exact ho
-    · intro q hq
-      have hids := ids_spec h m
-      rw [hspec] at hids
-      have : s.phaseId q ∈ uniqueSorted ((ids s.n m).map s.phaseId) :=
-        mem_uniqueSorted.2 (List.mem_map_of_mem hq)
-      rw [← hids] at this
-      simpa [PhaseList.ids] using this
+    refine ⟨i, p, hmem, ho, ?_⟩
+    intro q hq
+    have hids := ids_spec h m
+    rw [hspec] at hids
+    have : s.phaseId q ∈ uniqueSorted ((ids s.n m).map s.phaseId) :=
+      mem_uniqueSorted.2 (List.mem_map_of_mem hq)
+    rw [← hids] at this
+    simpa [PhaseList.ids] using this
   | a :: b :: r =>
     rw [hspec] at ho
     simp at ho
